@@ -116,7 +116,13 @@ def conclude(pid, tier, seed, summaries, known, wall, extra_results=()):
         if summ.incomplete:
             inconclusive.append("%s: %s" % (spec.name, summ.incomplete))
         if summ.missing_covers:
-            errors.append("%s: cover labels never reached (vacuity guard): %s" % (spec.name, summ.missing_covers))
+            lost = [e for e in summ.errors if e.startswith("[error] Unmodelled:") and "solver disagreement" not in e]
+            if lost:
+                # the labels are out of reach because paths of this tree ran into constructs no model covers: the part of the
+                # claim behind them is not decided on this tree (DEGRADED); with every path explored it would be a vacuous check
+                degraded.append("%s: cover labels not reached because %d path(s) left the modelled fragment: %s" % (spec.name, len(lost), summ.missing_covers))
+            else:
+                errors.append("%s: cover labels never reached (vacuity guard): %s" % (spec.name, summ.missing_covers))
         for vf in summ.validation_failures:
             why = str(vf.get("why"))
             wit = (vf.get("sample") or {}).get("witness")
